@@ -102,6 +102,7 @@ func runC06(w *World, r *Report, tier string) {
 func runC07(w *World, r *Report, tier string) {
 	kindRuleTexts(r)
 	unresolvedSeeds(w, r)
+	ruleLenCap(w, r)
 	entries := entryFuncs(w, r, "operated.GetShiftingSpatialID")
 	cl := closureOf(w, entries)
 	ruleIndexIntervalOpt(w, r, cl, true)
@@ -124,6 +125,7 @@ func runC07(w *World, r *Report, tier string) {
 func runC08(w *World, r *Report, tier string) {
 	kindRuleTexts(r)
 	unresolvedSeeds(w, r)
+	ruleLenCap(w, r)
 	entries := entryFuncs(w, r, "operated.Get6spatialIdsAdjacentToFaces", "operated.Get8spatialIdsAroundHorizontal",
 		"operated.Get26spatialIdsAroundVoxel", "operated.GetNspatialIdsAroundVoxcels")
 	ruleChunks(w, r, closureOf(w, entries))
